@@ -606,7 +606,7 @@ func helperLenPost(h *ssa.Function) map[int]map[string]uint32 {
 	})
 	for k, v := range acc {
 		for i, p := range h.Params {
-			if strings.HasPrefix(k, p.Name()+".") {
+			if strings.HasPrefix(k, pname(p)+".") || strings.HasPrefix(k, p.Name()+".") {
 				if res[i] == nil {
 					res[i] = map[string]uint32{}
 				}
